@@ -28,6 +28,15 @@ CHECKS = {
              'ok(v)/err/unspecified with the Dec operator, model-checks DecodedIsValid and StrictRefinesLenient, and the harness '
              'requires the real decoder to return exactly v, or raise ValidationError, and never any other exception.',
         ref='3.5, 4 (C06), Appendix B'),
+    'C13': dict(
+        technique='TLA+ spec StoneAnnotMC (permission- and redaction-aware Enc/Dec) model-checked by TLC; every state replayed through json_encode/json_decode',
+        text='TLC explores every (24 schema variants placing Omitted/RedactedBlot/RedactedHash on struct fields, inherited, patched and '
+             'subtype fields, union tags and aliases used directly, nullable, in lists, as map values and through alias-of-alias; 8 root '
+             'types; values with unique sentinels below every redactor; every subset of the permissions as encoding and as decoding '
+             'caller; redaction on/off) and checks NoOmittedLeak, NoRedactedLeak, OmittedNotSuppliable, PresentWithPermission on the '
+             'documented rules; each state is replayed: the produced text is searched for omitted member names and sentinels and '
+             'compared with the exact predicted document, and strict decoding per caller is compared with the predicted outcome.',
+        ref='3.5, 4 (C13)'),
 }
 
 NOT_YET = 'check not built yet in this round (work in progress; see DESIGN.md section 9)'
